@@ -156,9 +156,14 @@ const PREFIXES: [&str; 6] = ["-", "// ", "# ", "--", "<!-- ", "//"];
 const WSS: [&str; 5] = ["", "", "  ", "\t", "    "];
 
 pub fn source_name(rng: &mut Rng, i: usize, dotted: bool) -> String {
+    source_name_b(rng, i, dotted, false)
+}
+
+/// `blanks`: now and then a name with a blank in it (callers quote names in commands then)
+pub fn source_name_b(rng: &mut Rng, i: usize, dotted: bool, blanks: bool) -> String {
     let stem = if dotted && rng.chance(1, 5) {
         format!("f{i}.v{}", rng.below(3))
-    } else if rng.chance(1, 12) {
+    } else if blanks && rng.chance(1, 12) {
         // a blank in the name (commands quote the names they mention)
         format!("f{i} b")
     } else {
@@ -293,7 +298,7 @@ pub fn gen_graph_project(rng: &mut Rng, o: &GraphOpts, n: usize, edges: &BTreeSe
             continue;
         }
         let d = DIRS[if rng.chance(1, 2) { 0 } else { rng.below(DIRS.len()) }];
-        let name = source_name(rng, i, o.dotted);
+        let name = source_name_b(rng, i, o.dotted, true);
         paths.push(if d.is_empty() { name } else { format!("{d}/{name}") });
     }
     let outs: Vec<String> = paths.iter().map(|s| names::out_path(s).unwrap()).collect();
